@@ -21,10 +21,10 @@ RULE = ("for each initial content (fixed set + seeded random compositions of the
         "new content) so that the content write genuinely comes back short, and once per cap (1, 7, 16 bytes) with every write() "
         "transferring at most that many bytes but succeeding. Oracle: the preload file afterwards holds exactly the old or exactly the "
         "new content (absent counts as old when it was absent). Beyond single runs: every call of the window failing with EIO/EINTR (plus "
-        "call-specific errnos: EBUSY/EXDEV/EPERM on rename, EACCES/EMFILE on open, early end of file on read); histories (a run killed at a window "
+        "call-specific errnos: EBUSY/EXDEV/EPERM/ENOENT/ESTALE on rename, EACCES/EMFILE on open, early end of file on read); histories (a run killed at a window "
         "call, the file then replaced by other content, a later run must produce exactly what it produces without that history); and two "
         "overlapping runs (the first held by a tracer delay on entry to its rename, the second killed at write-type calls or running to its end); and fault "
-        "pairs: the rename failing with EBUSY/EXDEV plus a kill / ENOSPC / EIO at every call the command makes after that. non-trivial = crash/fault point at or after the first call that "
+        "pairs: the rename failing with EBUSY/EXDEV plus a kill / ENOSPC / EIO at every call the command makes after that; and another package replacing the file atomically while the command is held on entry to each of its calls from the first touch of the file to its own rename (the file must end as one of the complete contents either party wrote). non-trivial = crash/fault point at or after the first call that "
         "touches the preload file or its temporary sibling; every second (content, op) is run 'aged': file last modified two days ago, in a directory where an "
         "unfaulted enable/disable/enable ran before; distinct by (content, op, call index, fault)")
 
@@ -37,7 +37,8 @@ ERRNOS = ["ENOSPC", "EIO", "EDQUOT"]
 # every call of the window can fail, not only the writing ones: what a failing read / stat / rename must never do is make the
 # command carry on with half the information and still replace the file
 ANY_ERRNOS = ["EIO", "EINTR"]
-EXTRA_ERRNOS = {"rename": ["EBUSY", "EXDEV", "EPERM"], "renameat": ["EBUSY", "EXDEV", "EPERM"], "renameat2": ["EBUSY", "EXDEV", "EPERM"],
+_RN = ["EBUSY", "EXDEV", "EPERM", "ENOENT", "ESTALE"]     # (ENOENT: the temporary file vanished; ESTALE: what a network file system says then)
+EXTRA_ERRNOS = {"rename": _RN, "renameat": _RN, "renameat2": _RN,
                 "openat": ["EACCES", "EMFILE"], "open": ["EACCES", "EMFILE"], "unlink": ["EBUSY"], "unlinkat": ["EBUSY"],
                 "read": ["EAGAIN"], "pread64": ["EAGAIN"], "mmap": ["ENOMEM"], "brk": ["ENOMEM"]}
 LINE = re.compile(r"^([a-z_0-9]+)\((.*)$")
@@ -205,6 +206,44 @@ def pair_run(ctl, content, action, rename_name, kill_inject, old, new):
                           {"content": v, "stray": ctl.stray_files()}, {"old": old, "new": new}, key="overlap")
 
 
+EXT_PREFIX = b"/opt/other/lib/libother-package.so\n"
+
+
+def replace_run(ctl, content, action, hold, old, cache):
+    """Another package replaces the file ATOMICALLY (complete new content written aside, rename over it) while the command is held
+    (tracer delay) on entry to one of its calls.  No kill, no failing call: whatever the order of events, the file must end up as one of
+    the complete contents the parties meant to write -- the other package's, or the command's result for the old or for the other
+    package's content (a lost update is not this property's business, a mixture or a cut-off line is)."""
+    import time
+    ext = EXT_PREFIX + (old or b"")
+    if (ext, action) not in cache:
+        ctl.put(ext)
+        ctl.run(action)
+        cache[(ext, action)] = ctl.get()
+    if (old, action) not in cache:
+        ctl.put(old)
+        ctl.run(action)
+        cache[(old, action)] = ctl.get()
+    allowed = [ext, cache[(ext, action)], cache[(old, action)]]
+    ctl.put(old)
+    a = subprocess.Popen(["strace", "-qq", "-o", "/dev/null", "-e", "inject=%s:delay_enter=600000:when=%d" % hold, ctl.ctl, action], env=ctl.env,
+                         stdin=subprocess.DEVNULL, stdout=subprocess.DEVNULL, stderr=subprocess.DEVNULL)
+    time.sleep(0.3)
+    side = ctl.file + ".other-package-new"
+    with open(side, "wb") as f:
+        f.write(ext)
+    os.rename(side, ctl.file)
+    try:
+        a.wait(timeout=30)
+    except subprocess.TimeoutExpired:
+        a.kill()
+    after = ctl.get()
+    if after not in allowed:
+        raise Failure("`%s` held on entry to %s #%d while another package replaced the file atomically: the file ends up as none of the complete "
+                      "contents either party wrote" % (action, hold[0], hold[1]), {"after": after, "stray": ctl.stray_files()},
+                      {"other_package": ext, "command_on_other_package": allowed[1], "command_on_old": allowed[2]}, key="replace")
+
+
 def plans_for(calls, first_touch, quick):
     """yield (inject expression, nontrivial, label)"""
     for i, (name, ordinal, text) in enumerate(calls):
@@ -293,6 +332,27 @@ def worker(args):
                             ok, last = confirm(lambda c: pair_run(ctl, c["content"], c["action"], c["overlap"], c["kill"], old, new), case)
                             if ok:
                                 fails.append({"case": case, "what": last.what, "observed": last.observed, "expected": last.expected})
+        # another package's atomic replace at every call boundary from the first touch of the file to the command's own rename
+        if old is not None and first_touch is not None and (not ctx.quick or jn % 2 == 0):
+            holds = []
+            for i, c in enumerate(calls):
+                if i >= first_touch and c[0] not in ("exit_group", "exit"):
+                    holds.append(c)
+                    if c[0].startswith("rename"):
+                        break
+            rcache = _W.setdefault("replace-cache-%d" % idx, {})
+            for name, ordinal, text in holds:
+                case = {"content": content, "action": action, "replace_at": [name, ordinal]}
+                local.count((content, action, "replace", name, ordinal), [action, "external-atomic-replace", "call:" + name], sample=dict(case, call=text))
+                try:
+                    replace_run(ctl, content, action, (name, ordinal), old, rcache)
+                except Failure as f:
+                    if local.is_known(f.key):
+                        local.known_hit(f.key, f.what)
+                    elif not any("replace_at" in x["case"] for x in fails):
+                        ok, last = confirm(lambda c: replace_run(ctl, c["content"], c["action"], tuple(c["replace_at"]), old, rcache), case)
+                        if ok:
+                            fails.append({"case": case, "what": last.what, "observed": last.observed, "expected": last.expected})
         # a failing rename followed by a second fault: whatever the command does INSTEAD of the rename is subject to the same rule
         if new != old and first_touch is not None:
             for name, ordinal, text in [c for c in calls[first_touch:] if c[0].startswith("rename")][:1]:
@@ -376,6 +436,8 @@ def main():
         try:
             if "then" in case:
                 recovery_run(ctl, case["content"], case["action"], case["inject"], old, tuple(case["then"]), {})
+            elif "replace_at" in case:
+                replace_run(ctl, case["content"], case["action"], tuple(case["replace_at"]), old, {})
             elif "overlap" in case:
                 pair_run(ctl, case["content"], case["action"], case["overlap"], case["kill"], old, new)
             elif "write_cap" in case:
